@@ -123,7 +123,9 @@ def main(argv):
                 # a recognised violation was already established before an anchor went missing:
                 # report it (the later anchor failure is usually a consequence of the same edit)
                 print("%s note: rule engine stopped early: %s" % (pid, e))
-                return rep.finish("partial run (stopped early: %s)" % e, []) or 1
+                if rep.finish("partial run (stopped early: %s)" % e, []):
+                    return 1
+                # only known findings so far: the run is incomplete, which is a checker error, not a verdict
         except NameError:
             pass
         print("CHECKER-ERROR property=%s reason=%s" % (pid, e))
